@@ -42,6 +42,20 @@ type monStore struct {
 	written map[string]bool
 }
 
+// cpRoot copies a root, keeping the nil root nil: the node never holds an empty non-nil root (an empty non-nil root makes
+// StateDB.setMarker write the state marker under Hasher("") - the key an all-zero types.State is stored under).
+func cpRoot(r []byte) []byte {
+	if len(r) == 0 {
+		return nil
+	}
+	return append([]byte{}, r...)
+}
+
+// isTrieKey: the keys the property speaks of - node batches written under their hash (dbkey.Trie prefix + 32 bytes).
+func isTrieKey(k []byte) bool {
+	return bytes.HasPrefix(k, dbkey.Trie(nil)) && len(k) == triePrefix+trie.HashLength
+}
+
 func (m *monStore) noteWrite(k []byte) {
 	if bytes.HasPrefix(k, dbkey.Trie(nil)) && len(k) == triePrefix+trie.HashLength {
 		if m.written == nil {
@@ -61,7 +75,7 @@ func (m *monStore) Get(k []byte) []byte {
 }
 
 func (m *monStore) Set(k, v []byte) {
-	if old := m.DB.Get(k); len(old) != 0 && !bytes.Equal(old, v) {
+	if old := m.DB.Get(k); isTrieKey(k) && len(old) != 0 && !bytes.Equal(old, v) {
 		m.bad = append(m.bad, "Set changes existing pair "+hex.EncodeToString(k))
 	}
 	m.DB.Set(k, v)
@@ -83,7 +97,7 @@ func (t *monTx) Set(k, v []byte) {
 	if len(t.m.values) < 64 {
 		t.m.values = append(t.m.values, append([]byte{}, v...))
 	}
-	if old := t.m.DB.Get(k); len(old) != 0 && !bytes.Equal(old, v) {
+	if old := t.m.DB.Get(k); isTrieKey(k) && len(old) != 0 && !bytes.Equal(old, v) {
 		t.m.bad = append(t.m.bad, "Tx.Set changes existing pair "+hex.EncodeToString(k))
 	}
 	t.Transaction.Set(k, v)
@@ -103,7 +117,7 @@ func (t *monBulk) Set(k, v []byte) {
 	if len(t.m.values) < 64 && bytes.HasPrefix(k, dbkey.Trie(nil)) && len(k) == triePrefix+trie.HashLength {
 		t.m.values = append(t.m.values, append([]byte{}, v...))
 	}
-	if old := t.m.DB.Get(k); len(old) != 0 && !bytes.Equal(old, v) {
+	if old := t.m.DB.Get(k); isTrieKey(k) && len(old) != 0 && !bytes.Equal(old, v) {
 		t.m.bad = append(t.m.bad, "Bulk.Set changes existing pair "+hex.EncodeToString(k))
 	}
 	t.Bulk.Set(k, v)
@@ -427,7 +441,7 @@ func (s *sess) commit() {
 	for k, v := range s.ref {
 		m[k] = v
 	}
-	s.commits = append(s.commits, commitRec{append([]byte{}, s.tr.Root...), m})
+	s.commits = append(s.commits, commitRec{cpRoot(s.tr.Root), m})
 	s.wset(s.tr.Root)
 	s.op("commit", fmt.Sprintf("ok %d", len(s.commits)-1), false)
 	s.batchCodec()
@@ -610,7 +624,7 @@ func (s *sess) storeLayer() {
 		return
 	}
 	rng := s.run.Rng
-	root := append([]byte{}, s.tr.Root...)
+	root := cpRoot(s.tr.Root)
 	// (1) batches: the root batch, then down a random non-empty slot of the bottom level, or along a key of the universe
 	var along []byte
 	if len(s.univ) > 0 && rng.Chance(1, 2) {
@@ -712,7 +726,7 @@ func (s *sess) reopen(i int) {
 	c := s.commits[i]
 	if s.run.Rng.Chance(1, 2) {
 		// the root is switched on the LIVE instance, caches and all (StateDB.SetRoot / Revert: `states.Trie.Root = root`)
-		s.tr.Root = append([]byte{}, c.root...)
+		s.tr.Root = cpRoot(c.root)
 		s.run.Count("reopen-root-switched-on-live-instance")
 	} else {
 		s.tr = trie.NewTrie(c.root, common.Hasher, s.store)
